@@ -74,3 +74,29 @@ theorem C07_params_zero_inherits (recorded : Int) : pruneParam recorded 0 = (rec
 -- non-vacuity: a 3-level tree with distinct ids on which a prune step does something
 example : IdsNodup [node 0 [4, 0] [node 2 [2] [node 1 [1] [], node 3 [3] []], node 4 [5] []]] := by
   unfold IdsNodup; decide
+
+/-! ## the loop as the code runs it, on objects -/
+
+/-- **C07 (the prune loop on the object heap is the prune of the tree model).** `P41.loopRun` models the code's loop on
+the object heap: scan `all_structures` in prefix order for the first leaf that is still present, has a parent and fails
+the criteria *evaluated on the heap as it is now* (`_to_prune`), apply the two-sibling rule, merge with
+`_merge_with_parent`, rescan. Read as a forest of the tree model, its result is `pruneLoop` — for every well-formed heap,
+every criterion and every number of rounds; the merges the loop performs are legal, so after the cache reset and trunk
+seeding (`Heap.prune`) the heap is well formed with sound caches. The fixpoint, region, identifier and arity theorems of
+this file are therefore theorems about what the object-level code computes. -/
+theorem C07_heap_loop_refines {h : Heap} (w : P17.WF h) (icT : Tree → Tree → Bool) (n : Nat) :
+    P17.Legal h (P41.loopMerges n h (P41.icOf icT)) ∧
+    P35.absF (h.prune (P41.loopMerges n h (P41.icOf icT))) (h.prune (P41.loopMerges n h (P41.icOf icT))).size
+        (P35.rootsOf (h.prune (P41.loopMerges n h (P41.icOf icT)))) =
+      pruneLoop icT n (P35.absF h h.size (P35.rootsOf h)) ∧
+    P17.WF (h.prune (P41.loopMerges n h (P41.icOf icT))) ∧ P17.Sound (h.prune (P41.loopMerges n h (P41.icOf icT))) :=
+  P41.heap_prune_refines w icT n
+
+/-- the whole of `prune` (loop to the fixpoint, then `_make_trunk`) -/
+theorem C07_heap_prune_is_prune {h : Heap} (w : P17.WF h) (icT : Tree → Tree → Bool) (io : Tree → Bool) :
+    prune icT io (P35.absF h h.size (P35.rootsOf h)) =
+      makeTrunkP io
+        (P35.absF (P41.loopRun (sizeL (P35.absF h h.size (P35.rootsOf h))) h (P41.icOf icT))
+          (P41.loopRun (sizeL (P35.absF h h.size (P35.rootsOf h))) h (P41.icOf icT)).size
+          (P35.rootsOf (P41.loopRun (sizeL (P35.absF h h.size (P35.rootsOf h))) h (P41.icOf icT)))) :=
+  P41.prune_eq_loopRun w icT io
